@@ -19,7 +19,8 @@ LEVEL_NOTE = ("modelled, not verified: urllib.parse.quote/unquote, text-mode dec
 RULE = ("exhaustive: every byte 1-255 except '/' alone and inside a name, every ordered pair of 40 interesting "
         "bytes, depths 1-4, 255-byte names, paths of 2-15 such names (ASCII, UTF-8, escaped, invalid UTF-8: up to 7.6 KB once escaped), 64 boundary dates; then seeded random byte strings and random "
         "foreign .trashinfo contents; a case is non-trivial when it reaches the writer or a reader and distinct "
-        "by its input bytes")
+        "by its input bytes; world level: multi-argument trash-put runs under a clock that advances one hour per "
+        "mutating call - every written info is conformant and dated when its own entry was trashed")
 
 INTERESTING = [1, 9, 10, 13, 32, 33, 34, 35, 37, 38, 39, 43, 45, 46, 47 + 1, 58, 59, 61, 63, 64, 91, 92, 93, 94, 95,
                96, 123, 126, 127, 128, 0xA9, 0xBF, 0xC0, 0xC2, 0xC3, 0xE2, 0xED, 0xF0, 0xF4, 0xFF]
@@ -282,6 +283,13 @@ def run(tier, seed):
             eval_format(ck, impl, drv, "date", b"/x", dt)
         for kind, raw in gen_contents(ck, tier):
             eval_content(ck, impl, drv, kind, raw)
+        # world level: what the real trash-put writes (conformance of every new info file, DeletionDate = time of trashing
+        # of that entry under the sandbox's moving clock)
+        from ..putfamily import absorb, eval_task
+        from ..runner import run_tasks
+        cfg = {"oracles": ("C03w",), "violations": ("C03w",), "profile": "mixed", "states": False}
+        nw = 250 if tier == "quick" else 4000
+        absorb(ck, "C03", run_tasks(eval_task, [{"pid": "C03w", "seed": seed, "i": i, "cfg": cfg} for i in range(nw)]), cfg, "Model.Put")
         ck.exhaustive = False
         ck.extra["exhaustive_subdomains"] = ["every byte 1-255 except '/' alone and inside a name",
                                              "ordered pairs of 40 interesting bytes", "64 boundary dates"]
